@@ -21,12 +21,33 @@ TRANSFORM_ROUTES = [("constructor",), ("set",), ("constructor", "add"), ("constr
                     ("add",), ("precompose",), ("set", "precompose", "add"), ("constructor", "add", "precompose")]
 
 
-def make_drawing(rng, model, transform_kind, plt, D, H, own_axes=False):
+def alt_signs(n, cls, phase=0):
+    """+-1 per unit for the sign class of homogeneous representatives:
+    '+' all positive, '-' all negative, 'mixed' alternating (unit j negative
+    when j + phase is even).  A point of hyperbolic / projective space does not
+    depend on the sign of its representative, so nothing drawn may depend on it
+    (seeded change C19-r4-3: a formula valid for positive time coordinate only)."""
+    if cls == "+":
+        return np.ones(n)
+    if cls == "-":
+        return -np.ones(n)
+    return np.where((np.arange(n) + phase) % 2 == 0, -1.0, 1.0)
+
+
+def make_drawing(rng, model, transform_kind, plt, D, H, own_axes=False, negate=False):
     """HyperbolicDrawing with identity or a random certified isometry; returns
-    (drawing, A) with A the column-convention matrix (reference side)."""
+    (drawing, A) with A the column-convention matrix (reference side).  With
+    `negate` the library is handed -B for the first step of the route: the same
+    isometry of hyperbolic space written with the other sign (it maps the future
+    cone to the past cone, so every transformed representative has a negative
+    time coordinate); the reference keeps B."""
     A = np.eye(3)
     kwargs = {}
     later = []
+    lib_sign = [-1.0 if negate else 1.0]
+
+    def lib_matrix(B):
+        return B * (lib_sign.pop() if lib_sign else 1.0)
     if transform_kind == "isometry":
         # the drawing's transform is reached through one of its histories:
         # constructor argument, set_transform, add_transform (applied after what
@@ -36,7 +57,7 @@ def make_drawing(rng, model, transform_kind, plt, D, H, own_axes=False):
         for step in route:
             B = rh.rand_isometry(rng, 2, tmax=0.7)
             if step == "constructor":
-                kwargs["transform"] = H.Isometry(B, column_vectors=True)
+                kwargs["transform"] = H.Isometry(lib_matrix(B), column_vectors=True)
                 A = B
             else:
                 later.append((step, B))
@@ -45,7 +66,7 @@ def make_drawing(rng, model, transform_kind, plt, D, H, own_axes=False):
         kwargs.update(ax=axs[0], fig=fig)
     d = D.HyperbolicDrawing(model=model, **kwargs)
     for step, B in later:
-        T = H.Isometry(B, column_vectors=True)
+        T = H.Isometry(lib_matrix(B), column_vectors=True)
         if step == "set":
             d.set_transform(T)
             A = B
@@ -155,7 +176,12 @@ def wl_polygons(run, rng, idx):
     tk = "isometry" if (idx // 24) % 2 else "identity"
     nv = 3 + (idx // 48 + idx) % 6
     count = [1, 1, 3][(idx // 7) % 3]
-    d, A = make_drawing(rng, model, tk, plt, D, H)
+    # sign classes of the vertex representatives (all positive / every second
+    # polygon negative / alternating from vertex to vertex) and the isometry
+    # written as -A: the drawn polygon must not depend on either
+    sign_cls = ["+", "+", "polygon", "vertex"][(idx // 5) % 4]
+    negate = tk == "isometry" and (idx // 2) % 2 == 1
+    d, A = make_drawing(rng, model, tk, plt, D, H, negate=negate)
     try:
         Ks = []
         for _ in range(count):
@@ -172,13 +198,19 @@ def wl_polygons(run, rng, idx):
         Ks = np.array(Ks)
         X = pull_back(A, Ks)
         X = X * rng.uniform(0.5, 2.0, size=X.shape[:-1] + (1,))
+        if sign_cls == "polygon":
+            X = X * alt_signs(count, "mixed")[:, None, None]
+        elif sign_cls == "vertex":
+            X = X * alt_signs(nv, "mixed", idx)[None, :, None]
         if count == 1:
             X = X[0]
         run.current_case = {"workload": "polygons", "model": model, "class": cls,
-                            "transform": tk, "matrix": A, "vertices": X}
+                            "transform": tk, "matrix": A, "library_matrix_negated": negate,
+                            "representative_signs": sign_cls, "vertices": X}
         poly = H.Polygon(X) if idx % 2 else H.Polygon(H.Point(X))
         d.draw_polygon(poly, facecolor="lightgreen")
         run.note_class("polygons", mname, cls, tk, nv, count)
+        run.note_class("polygon-signs", mname, sign_cls, negate)
         if idx < 3:
             run.sample(run.current_case)
     finally:
@@ -271,7 +303,9 @@ def wl_geodesics(run, rng, idx):
     tk = "isometry" if (idx // 12) % 2 else "identity"
     thr_kw = [None, None, 3.0, 0.8][(idx // 24) % 4]
     shape = [(), (4,), (2, 3)][(idx // 5) % 3]
-    d, A = make_drawing(rng, model, tk, plt, D, H)
+    sign_cls = [("+", "+"), ("+", "-"), ("mixed", "mixed"), ("-", "+")][(idx // 7) % 4]
+    negate = tk == "isometry" and (idx // 2) % 2 == 1
+    d, A = make_drawing(rng, model, tk, plt, D, H, negate=negate)
     try:
         n = int(np.prod(shape)) if shape else 1
         Kp = rh.rand_ball(rng, 2, (n,), rmax=0.9)
@@ -293,10 +327,12 @@ def wl_geodesics(run, rng, idx):
             W = rc.model_of_klein(np.where(np.linalg.norm(Kp, axis=-1, keepdims=True) >= 1, Kp * 0.999999, Kp), "halfspace")
         far = np.linalg.norm(Kp - Kq, axis=-1) < 0.01
         Kq[far] = -Kq[far]
-        P = pull_back(A, Kp).reshape(shape + (3,))
-        Q = pull_back(A, Kq).reshape(shape + (3,))
+        P = (pull_back(A, Kp) * alt_signs(n, sign_cls[0], 0)[:, None]).reshape(shape + (3,))
+        Q = (pull_back(A, Kq) * alt_signs(n, sign_cls[1], 1)[:, None]).reshape(shape + (3,))
         run.current_case = {"workload": "geodesics", "model": model, "kind": kind,
-                            "transform": tk, "matrix": A, "P": P, "Q": Q, "threshold": thr_kw}
+                            "transform": tk, "matrix": A, "library_matrix_negated": negate,
+                            "representative_signs": list(sign_cls), "P": P, "Q": Q,
+                            "threshold": thr_kw}
         if kind == "geodesic":
             obj = H.Geodesic(H.IdealPoint(P), H.IdealPoint(Q))
         else:
@@ -306,6 +342,7 @@ def wl_geodesics(run, rng, idx):
         else:
             d.draw_geodesic(obj, radius_threshold=thr_kw)
         run.note_class("geodesics", model, kind, tk, shape, thr_kw)
+        run.note_class("geodesic-signs", model, kind, sign_cls, negate)
     finally:
         plt.close("all")
 
@@ -316,7 +353,9 @@ def wl_points(run, rng, idx):
     tk = "isometry" if (idx // 3) % 2 else "identity"
     shape = [(), (5,), (2, 3)][(idx // 6) % 3]
     setting = ["current", "current", "second-drawing-open", "own-axes"][(idx // 18) % 4]
-    d, A = make_drawing(rng, model, tk, plt, D, H, own_axes=(setting == "own-axes"))
+    sign_cls = ["+", "mixed", "-"][(idx // 5) % 3]
+    negate = tk == "isometry" and (idx // 2) % 2 == 1
+    d, A = make_drawing(rng, model, tk, plt, D, H, own_axes=(setting == "own-axes"), negate=negate)
     try:
         if setting == "second-drawing-open":
             other = D.HyperbolicDrawing(model=model)     # becomes pyplot's current figure
@@ -324,10 +363,13 @@ def wl_points(run, rng, idx):
         if model == "halfspace":
             K = np.where(rc.inf_distance(K)[..., None] < 0.15, -K, K)
         X = pull_back(A, K) * rng.uniform(0.5, 2, size=shape + (1,))
+        X = X * alt_signs(int(np.prod(shape)) if shape else 1, sign_cls, idx).reshape(shape + (1,))
         run.current_case = {"workload": "points", "model": model, "transform": tk,
-                            "setting": setting, "matrix": A, "points": X}
+                            "setting": setting, "matrix": A, "library_matrix_negated": negate,
+                            "representative_signs": sign_cls, "points": X}
         d.draw_point(H.Point(X), color="red", marker="x") if idx % 2 else d.draw_point(H.Point(X))
         run.note_class("points", model, tk, shape, setting)
+        run.note_class("point-signs", model, sign_cls, negate)
     finally:
         plt.close("all")
 
@@ -343,7 +385,13 @@ def wl_horo(run, rng, idx):
         model = "halfspace"      # horocycles of Euclidean radius > RADIUS_THRESHOLD
     if what == "horosphere-at-infinity":
         tk = "identity"          # the centre must be the point at infinity exactly
-    d, A = make_drawing(rng, model, tk, plt, D, H)
+    # sign classes (centre, reference point) of the representatives, and the
+    # drawing's isometry written as -A: after the drawing transform the reference
+    # point / centre has a negative time coordinate in every combination but
+    # (+, A) and (-, -A).  Seeded change C19-r4-3.
+    sign_cls = [("+", "+"), ("+", "-"), ("-", "+"), ("-", "-"), ("mixed", "mixed")][idx % 5]
+    negate = tk == "isometry" and (idx // 3) % 2 == 1
+    d, A = make_drawing(rng, model, tk, plt, D, H, negate=negate)
     try:
         from .c14_workloads import make_horoarc_data
         data = make_horoarc_data(rng, (n,))
@@ -363,8 +411,12 @@ def wl_horo(run, rng, idx):
                 return
             e = np.broadcast_to(np.array([1.0, 0.0]), (n, 2)).copy()
         E, P1, P2 = pull_back(A, e), pull_back(A, k1), pull_back(A, k2)
+        E = E * alt_signs(n, sign_cls[0], 1)[:, None]
+        P1 = P1 * alt_signs(n, sign_cls[1], 0)[:, None]
+        P2 = P2 * alt_signs(n, sign_cls[0], 0)[:, None]
         run.current_case = {"workload": "horo", "what": what, "model": model, "transform": tk,
-                            "matrix": A, "centre": E, "p1": P1, "p2": P2}
+                            "matrix": A, "library_matrix_negated": negate,
+                            "representative_signs": list(sign_cls), "centre": E, "p1": P1, "p2": P2}
         if what.startswith("horosphere"):
             hs = H.Horosphere(H.IdealPoint(E), H.Point(P1))
             if n == 1 and idx % 3 == 0:
@@ -376,6 +428,7 @@ def wl_horo(run, rng, idx):
                 ha = H.HorosphereArc(H.IdealPoint(E[0]), H.Point(P1[0]), H.Point(P2[0]))
             d.draw_horoarc(ha, edgecolor="blue") if idx % 4 == 1 else d.draw_horoarc(ha)
         run.note_class("horo", what, model, tk, n)
+        run.note_class("horo-signs", what.split("-")[0], model, sign_cls[1], negate)
     finally:
         plt.close("all")
 
@@ -397,21 +450,25 @@ def wl_projective(run, rng, idx):
                 if np.linalg.cond(B) < 12:
                     return B
         route = TRANSFORM_ROUTES[int(rng.integers(len(TRANSFORM_ROUTES)))]
+        # the same projective map written as -B (first step of the route) on
+        # every second pair of cases: the library gets lib_sign * B, the reference B
+        lib_sign = [-1.0] if (idx // 2) % 2 else []
         for step in route:
             B = rand_map()
             if step == "constructor":
-                kwargs["transform"] = PR.Transformation(B, column_vectors=True)
+                kwargs["transform"] = PR.Transformation(B * (lib_sign.pop() if lib_sign else 1.0),
+                                                        column_vectors=True)
                 A = B
             else:
-                later.append((step, B))
+                later.append((step, B, lib_sign.pop() if lib_sign else 1.0))
     if setting == "own-axes":
         fig, axs = plt.subplots(1, 2)
         kwargs.update(ax=axs[0], fig=fig)
     if what == "polygon-nonaffine-option":
         ci = 0
     d = D.ProjectiveDrawing(chart_index=ci, **kwargs)
-    for step, B in later:
-        T = PR.Transformation(B, column_vectors=True)
+    for step, B, sgn in later:
+        T = PR.Transformation(sgn * B, column_vectors=True)
         if step == "set":
             d.set_transform(T)
             A = B
@@ -428,6 +485,36 @@ def wl_projective(run, rng, idx):
             Y = np.insert(aff, ci, 1.0, axis=-1)
             Y = Y * rng.uniform(0.5, 2, size=shp + (1,)) * rng.choice([-1.0, 1.0], size=shp[:max(len(shp) - 1, 0)] + (1,) * (1 + (len(shp) > 0)))
             return rd.apply_columns(np.linalg.inv(A), Y)
+
+        def crossing_points(shp, nv, mixed):
+            """polygons that cross the chart's line at infinity exactly twice: the
+            representatives of one cyclic run of vertices (random start, random
+            length 1..nv-1) carry the opposite sign of the others.  In a composite
+            the first sign change falls at different vertex indices in different
+            polygons (sign patterns ++-- next to +--+ ...; seeded change C19-r4-1:
+            every polygon of the composite cut at the first polygon's index); with
+            `mixed` every second polygon stays inside the chart."""
+            aff = rng.uniform(-4, 4, size=shp + (nv, 2))
+            Y = np.insert(aff, ci, 1.0, axis=-1) * rng.uniform(0.5, 2, size=shp + (nv, 1))
+            flat = Y.reshape((-1, nv, 3))
+            for _ in range(100):
+                sgn = np.ones((len(flat), nv))
+                first = set()
+                for j in range(len(flat)):
+                    if mixed and j % 2 == 1:
+                        sgn[j] = rng.choice([-1.0, 1.0])
+                        continue
+                    s0, m = int(rng.integers(nv)), int(rng.integers(1, nv))
+                    sgn[j] = -1.0
+                    sgn[j, [(s0 + t) % nv for t in range(m)]] = 1.0
+                    if rng.random() < 0.5:
+                        sgn[j] = -sgn[j]
+                    first.add(int(np.argmax(sgn[j] != sgn[j, 0])))
+                ncross = len(flat) if not mixed else (len(flat) + 1) // 2
+                if ncross < 2 or len(first) >= 2:
+                    break
+            Y = (flat * sgn[..., None]).reshape(shp + (nv, 3))
+            return rd.apply_columns(np.linalg.inv(A), Y)
         run.current_case = {"workload": "projective", "what": what, "chart": ci, "matrix": A}
         if what == "point":
             d.draw_point(PR.Point(chart_points(shape)), **({"color": "green"} if idx % 2 else {}))
@@ -436,12 +523,21 @@ def wl_projective(run, rng, idx):
                                 **({"color": "green"} if idx % 2 else {}))
         else:
             nv = int(rng.integers(3, 9))
-            X = chart_points(shape + (nv,))
+            # assume_affine=False: polygons inside the chart / crossing its line at
+            # infinity / both kinds in one composite (idx % 3 is free here: this
+            # option exists for the standard chart only)
+            variant = ["in-chart", "crossing", "mixed"][idx % 3] if what != "polygon" else "in-chart"
+            if variant == "in-chart":
+                X = chart_points(shape + (nv,))
+            else:
+                X = crossing_points(shape, nv, variant == "mixed")
+            run.current_case["vertices"] = X
             poly = PR.Polygon(X)
             if what == "polygon":
                 d.draw_polygon(poly, **({"edgecolor": "green"} if idx % 2 else {}))
             else:
-                d.draw_polygon(poly, assume_affine=False)
+                d.draw_polygon(poly, assume_affine=False, **({"facecolor": "lightblue"} if idx % 2 else {}))
+            what = what if variant == "in-chart" else what + "/" + variant
         run.note_class("projective", what, ci, tk, shape, setting)
     finally:
         plt.close("all")
